@@ -595,8 +595,34 @@ Definition run_c12_timeouts (args : list sx) : sx :=
                           | None => sx_bad end) vals))
   | _ => None end).
 
+(* c12.live: mode request -> outcome of that request sent by a real client over a real listener:
+   the transport decides HTTP version, TLS and client certificate (0 HTTP/1.1 plain, 1 HTTP/1.1 TLS,
+   2 HTTP/1.1 TLS + client certificate, 3 HTTP/2 TLS, 4 HTTP/2 TLS + client certificate, 5 h2c) *)
+Definition with_transport (mode : Z) (r : request) : option request :=
+  let mk pm t :=
+    Some {| proto_major := pm; method := method r; content_type := content_type r;
+            grpc_encoding := grpc_encoding r; connect_content_encoding := connect_content_encoding r;
+            content_encoding := content_encoding r; te := te r; connect_timeout := connect_timeout r;
+            grpc_timeout := grpc_timeout r; x_name := x_name r; x_version := x_version r; x_method := x_method r;
+            x_protocol := x_protocol r; x_codec := x_codec r; x_compression := x_compression r; x_tls := x_tls r;
+            x_cert := x_cert r; q_encoding := q_encoding r; q_compression := q_compression r;
+            body_empty := body_empty r; tls := t; trailer_keys := trailer_keys r |} in
+  if mode =? 0 then mk 1 None
+  else if mode =? 1 then mk 1 (Some [])
+  else if mode =? 2 then mk 1 (Some [c12_client_cert_name])
+  else if mode =? 3 then mk 2 (Some [])
+  else if mode =? 4 then mk 2 (Some [c12_client_cert_name])
+  else if mode =? 5 then mk 2 None
+  else None.
+
+Definition run_c12_live (args : list sx) : sx :=
+  or_bad (match args with
+  | [I mode; r] => do r <- un_request r; do r <- with_transport mode r; ret (sx_outcome (snd (checks_x [] r)))
+  | _ => None end).
+
 Definition c12_table : list (bytes * (list sx -> sx)) :=
   [ (lit "c12.seq", run_c12_seq);
     (lit "c12.matrix", run_c12_matrix);
     (lit "c12.render", run_c12_render);
-    (lit "c12.timeouts", run_c12_timeouts) ].
+    (lit "c12.timeouts", run_c12_timeouts);
+    (lit "c12.live", run_c12_live) ].
